@@ -298,6 +298,9 @@ traversal:
 	parent.signals = append(parent.signals, p.signals...)
 	p.signals = nil
 	for path, cp := range p.clients {
+		if parent.clients == nil {
+			parent.clients = make(map[clientPath][]clientAndPromise)
+		}
 		parent.clients[path] = append(parent.clients[path], cp...)
 	}
 	p.clients = nil
